@@ -440,6 +440,8 @@ impl MSink {
     }
     fn check_attrs(&self, what: &str, attrs: &[Attribute]) {
         for (i, a) in attrs.iter().enumerate() {
+            // "qualified name" as the property says it (prefix, namespace, local name): xml5ever hands over an
+            // unbound p:k next to k - same expanded name, different qualified names - and that is not what C05 forbids
             if attrs[..i].iter().any(|b| b.name == a.name) {
                 self.bad(format!("{what}: attribute list contains {:?} twice", a.name));
             }
